@@ -101,6 +101,9 @@ func RStatus(r int) int
 func RMsg(r int) string
 func RUnchanged(r int) bool
 
+// REqual: the values decoded by two runs are equal (structurally, symbolic leaves by term).
+func REqual(r1, r2 int) bool
+
 // Document accessors (path: member names / array indices separated by '/', "" = root;
 // extra members of an object are "+0", "+1", ...).
 func DIs(doc int, path string, kind int) bool
